@@ -2,6 +2,7 @@ package sim
 
 import (
 	"fmt"
+	"math/big"
 	"reflect"
 
 	"github.com/protolambda/zrnt/eth2/beacon/common"
@@ -163,5 +164,20 @@ func (l *Lock) CheckEpc() string {
 	if err != nil {
 		return "cannot read registry: " + err.Error()
 	}
-	return CompareEpc(l.Epc, fresh, len(pks), pks)
+	if d := CompareEpc(l.Epc, fresh, len(pks), pks); d != "" {
+		return d
+	}
+	// "computed from scratch" by the library shares its code with the live context; the stake figures are
+	// also held against the reference state's get_total_active_balance and its integer square root
+	if l.Chain != nil && l.St != nil && l.Sp != nil && uint64(len(pks)) == uint64(len(l.St.Validators)) {
+		want := l.Sp.TotalActiveBalance(l.St)
+		if uint64(l.Epc.TotalActiveStake) != want {
+			return fmt.Sprintf("TotalActiveStake: context (live and from scratch) %d != get_total_active_balance(state) %d", l.Epc.TotalActiveStake, want)
+		}
+		root := new(big.Int).Sqrt(new(big.Int).SetUint64(want)).Uint64()
+		if uint64(l.Epc.TotalActiveStakeSqRoot) != root {
+			return fmt.Sprintf("TotalActiveStakeSqRoot: context (live and from scratch) %d != integer_squareroot(%d) = %d", l.Epc.TotalActiveStakeSqRoot, want, root)
+		}
+	}
+	return ""
 }
